@@ -33,6 +33,24 @@ def _fc11a_expected():
 
 FC11A = _fc11a_expected()
 
+
+def _finding_fixed(fid, envname):
+    env = os.environ.get(envname)
+    if env is not None:
+        return env == "1"
+    import json
+    try:
+        return any(f["id"] == fid and f.get("status") == "fixed"
+                   for f in json.load(open(os.path.join(leandrv.VERIF, "known_findings.d", "C11.json")))["findings"])
+    except OSError:
+        return False
+
+
+# is fixes/FC11b-minimalloc-follow-select.diff (repair of C11-N2: arith.select joins VIEW_LIKE_OPS) expected in the
+# code under test? Then the converter hands a select to the model as a followed view.
+FC11B = _finding_fixed("C11-N2", "C11_FC11B")
+SELECT = "arith.select"
+
 # Bit widths of the generated element types. One element occupies ceil(bits / 8) bytes in memory: that is what
 # the byte strides of the layout (tsl.get_step_ops), the DMA and the memref lowering use. The table is the
 # harness's own (it does not ask the type for its `.size`), so a wrong element size in the code under test shows.
@@ -324,7 +342,18 @@ def render_ops(ops, types, ind, lines, l1=False):
     pad = "  " * ind
     for op in ops:
         k = op[0]
-        if k == "alloc":
+        if k == "malloc":
+            # front end "memref": a memref.alloc with a layout, sized by the real memref-to-snax + canonicalize
+            _, n, lay, align = op
+            ty = memref_type_text(lay)
+            dyn = [i for i, x in enumerate(lay["tshape"]) if x is None]
+            for i in dyn:
+                lines.append(f'{pad}%md{n}_{i} = "test.op"() : () -> index')
+            al = "" if align is None else f"alignment = {align} : i64, "
+            lines.append(f'{pad}%m{n} = "memref.alloc"({", ".join(f"%md{n}_{i}" for i in dyn)}) <{{{al}operandSegmentSizes = '
+                         f'array<i32: {len(dyn)}, 0>}}> : ({", ".join(["index"] * len(dyn))}) -> {ty}')
+            types[f"m{n}"] = ty
+        elif k == "alloc":
             _, n, mem, size, align = op
             if size is None:
                 lines.append(f'{pad}%s{n} = "test.op"() : () -> index')
@@ -336,6 +365,12 @@ def render_ops(ops, types, ind, lines, l1=False):
         elif k == "cast":
             _, v, src = op
             lines.append(f'{pad}%v{v} = "{UCAST}"(%{src}) : ({types[src]}) -> {M}')
+            types[f"v{v}"] = M
+        elif k == "sel":
+            # double buffering: arith.select between two buffers of the same type
+            _, v, a, b = op
+            lines.append(f'{pad}%selc{v} = "test.op"() : () -> i1')
+            lines.append(f'{pad}%v{v} = "arith.select"(%selc{v}, %{a}, %{b}) : (i1, {M}, {M}) -> {M}')
             types[f"v{v}"] = M
         elif k == "view":
             _, v, kind, src = op
@@ -404,8 +439,11 @@ def prog_src(case):
         lines.append(f'    func.return {", ".join("%" + v for v in ret)} : {rtypes}')
     else:
         lines.append("    func.return")
-    head = ["builtin.module {", f"  func.func public @f(%n : index){' -> (' + rtypes + ')' if ret else ''} {{"]
-    return "\n".join(head + lines + ["  }", "}"])
+    sig = f"(%n : index){' -> (' + rtypes + ')' if ret else ''} {{"
+    fn = lambda name: [f"  func.func public @{name}{sig}"] + lines + ["  }"]  # noqa: E731
+    # case flag "twin": the function under observation (@f) is the SECOND function of its module, behind a copy of
+    # itself: anything the pass keeps from one function to the next (or from one pass run to the next) shows
+    return "\n".join(["builtin.module {"] + (fn("g") if case.get("twin") else []) + fn("f") + ["}"])
 
 
 def gen_body(rng, mems, mode, big=False, l1=False):
@@ -458,6 +496,11 @@ def gen_body(rng, mems, mode, big=False, l1=False):
                 if src is None:
                     continue
                 v = next(counter)
+                other = pick(local, {"M"})
+                if src[1] == "M" and other is not None and rng.random() < 0.12:
+                    ops.append(["sel", v, src[0], other[0]])  # what pipeline-duplicate-buffers emits for double buffering
+                    local.append((f"v{v}", "M"))
+                    continue
                 if src[1] == "M":
                     kind = rng.choice(["subview", "subview", "subview", "mcast", "mscast", "lcast", "ucast2"])
                 else:
@@ -519,6 +562,39 @@ def walk_allocs(ops):
         # ("ret" and the yielded values of for/if define nothing)
 
 
+def walk_mallocs(ops):
+    """the memref.alloc descriptions of a body (front end "memref") in walk order"""
+    for op in ops:
+        if op[0] == "malloc":
+            yield op
+        elif op[0] == "for":
+            yield from walk_mallocs(op[1])
+        elif op[0] == "if":
+            yield from walk_mallocs(op[1])
+            yield from walk_mallocs(op[2])
+
+
+def front_size_reqs(case):
+    """Lean size requests for the memref.allocs of a front-end "memref" case, in walk order"""
+    if case.get("front") != "memref":
+        return []
+    reqs = []
+    for _, _, lay, _ in walk_mallocs(case["body"]):
+        if lay["dims"] is None:
+            reqs.append({"fn": "c11.size_nolayout", "args": {"el": EL[lay["el"]], "shape": lay["rt"]}})
+        else:
+            reqs.append({"fn": "c11.size", "args": {"dims": lay["dims"], "offset": lay["offset"], "el": EL[lay["el"]],
+                                                    "shape": lay["rt"]}})
+    return reqs
+
+
+def expected_shapes(case, n):
+    """shape operands that the memref descriptors must carry, per alloc in walk order"""
+    if case.get("front") == "memref":
+        return [["dyn" if x is None else x for x in op[2]["tshape"]] for op in walk_mallocs(case["body"])]
+    return [SHAPE] * n
+
+
 def tighten_mems(rng, mems, body):
     """Deliberate family "nearly full memory": the capacity of every memory becomes what a bump allocation of the
     body needs, give or take a few bytes, so that the last buffers fit exactly, only without their alignment
@@ -531,10 +607,55 @@ def tighten_mems(rng, mems, body):
     return [[start, max(1, cur[i] - start + rng.choice([-9, -4, -2, -1, 0, 0, 0, 1, 3, 8]))] for i, (start, _) in enumerate(mems)]
 
 
+def gen_front_body(rng, big=False):
+    """Front end "memref": memref.allocs with random static layouts (occasionally a dynamic shape, a missing
+    alignment), uses at top level and in loops, returned buffers. The sizes come from the real memref-to-snax."""
+    n = itertools.count()
+    live = []
+    body = []
+
+    def lay():
+        for _ in range(50):
+            c = gen_size_case(rng)
+            if c["space"] == "L1" and c["el"] != "index" and not c.get("strided") and len(c["tshape"]) == (
+                    len(c["dims"]) if c["dims"] is not None else len(c["tshape"])) and all(
+                    b is not None or k == 0 for t in (c["dims"] or []) for k, (_, b) in enumerate(t)):
+                total = 1
+                for x in c["rt"]:
+                    total *= max(1, x)
+                if total <= 4096 and (rng.random() < 0.06 or all(x is not None for x in c["tshape"])):
+                    return c
+        return {"kind": "size", "el": "i8", "dims": None, "offset": 0, "tshape": [16], "rt": [16], "space": "L1"}
+
+    for _ in range(rng.randint(3, 12 if big else 8)):
+        r = rng.random()
+        if r < 0.45 or not live:
+            k = next(n)
+            body.append(["malloc", k, lay(), rng.choice([None, 1, 8, 64, 64])])
+            live.append(f"m{k}")
+        elif r < 0.85:
+            body.append(["use", [rng.choice(live) for _ in range(rng.choice([1, 1, 2]))]])
+        else:
+            body.append(["for", [["use", [rng.choice(live)]] for _ in range(rng.randint(1, 2))]])
+    for _ in range(rng.randint(0, 2)):
+        body.append(["use", [rng.choice(live)]])
+    used = {v for op in body if op[0] == "use" for v in op[1]} | {v for op in body if op[0] == "for" for u in op[1] for v in u[1]}
+    for v in live:
+        if v not in used and rng.random() < 0.9:  # (an unused buffer loses its cast in canonicalize: MiniMallocate raises)
+            body.append(["use", [v]])
+    if rng.random() < 0.25:
+        body.append(["ret", [rng.choice(live)]])
+    return body
+
+
 def gen_mems(rng):
     n = rng.choice([1, 1, 2])
     mems = []
     base = rng.choice([0, 0, 4, 64, 1000, 0x10000000, 0x7FFFFF00, 0x80000000, 12])
+    if FC11A and rng.random() < 0.8:
+        # with FC11a MiniMallocate refuses a memory whose start is not a multiple of an alignment: keep most
+        # starts aligned so that the placement itself stays exercised (the rest exercises the refusal)
+        base = rng.choice([0, 64, 960, 0x10000000, 0x7FFFFF00 // 64 * 64, 0x80000000])
     for i in range(n):
         cap = rng.choice([48, 100, 128, 256, 1000, 65536])
         mems.append([base, cap])
@@ -557,7 +678,13 @@ def build_ir(case):
         else:
             ctx.register_memory(SnaxMemory(StringAttr(name), cap, start))
     module = Parser(ctx, prog_src(case)).parse_module()
-    f = next(op for op in module.body.block.ops if isinstance(op, func.FuncOp))
+    if case.get("front") == "memref":
+        # the neighbouring passes of the real pipeline: memref-to-snax computes the sizes, canonicalize folds them
+        from snaxc.transforms.memref_to_snax import MemrefToSNAX
+        from xdsl.transforms.canonicalize import CanonicalizePass
+        MemrefToSNAX().apply(ctx, module)
+        CanonicalizePass().apply(ctx, module)
+    f = next(op for op in module.body.block.ops if isinstance(op, func.FuncOp) and op.sym_name.data == "f")
     return ctx, module, f
 
 
@@ -598,6 +725,8 @@ def node_kind(op):
         return "ucast"
     if op.name in VIEW_NAMES:
         return "view"
+    if op.name == SELECT and any(str(o.type).startswith("memref") for o in op.operands):
+        return "view" if FC11B else "sel"  # the code follows it only with FC11b
     return "other"
 
 
@@ -645,15 +774,16 @@ def install_capture():
     _Capture.installed = True
 
 
-def alias_uses(f, alloc, ids):
-    """Oracle side: own transitive walk. Returns (all top-level use indices, those the pinned commit tracks,
+def alias_uses(f, alloc, ids, follow_select=True):
+    """Oracle side: own transitive walk through casts, views and (the property's full notion of "the buffer is
+    still used") arith.select between buffers. Returns (all top-level use indices, those the pinned commit tracks,
     set of alias value ids)."""
     top_index = {op: i for i, op in enumerate(f.body.block.ops)}
 
     def top_of(op):
-        while op.parent_op() is not f:
+        while op is not None and op.parent_op() is not f:
             op = op.parent_op()
-        return top_index[op]
+        return top_index.get(op, -1)  # -1: a user in another function (twin module, static mode)
 
     tops_all, tops_orig, aliases = [], [], set()
     work = [(alloc.result, 0)]
@@ -663,13 +793,13 @@ def alias_uses(f, alloc, ids):
         if val in seen:
             continue
         seen.add(val)
-        aliases.add(ids[val])
+        aliases.add(ids.get(val, -1))
         for use in val.uses:
             o = use.operation
             tops_all.append(top_of(o))
             if lvl == 0 or lvl == 1:
                 tops_orig.append(top_of(o))
-            if o.name == UCAST or o.name in VIEW_NAMES:
+            if o.name == UCAST or o.name in VIEW_NAMES or (follow_select and o.name == SELECT):
                 for r in o.results:
                     # pinned commit: follows only an unrealized cast directly on the alloc result
                     nl = 1 if (lvl == 0 and o.name == UCAST and r is o.results[0]) else 2
@@ -740,7 +870,16 @@ class C11(Prop):
             body = gen_body(rng, mems, "static", big=not quick)
             if rng.random() < 0.45:
                 mems = tighten_mems(rng, mems, body)
-            yield {"kind": "static", "mode": "static", "mems": mems, "body": body}
+            c = {"kind": "static", "mode": "static", "mems": mems, "body": body}
+            if rng.random() < 0.2:
+                c["twin"] = True  # two functions: the bump pointers run on through the module
+            yield c
+        for _ in range(50 if quick else 1500):
+            # the real pipeline order: memref-to-snax, canonicalize, snax-allocate on memref.allocs with layouts
+            mode = rng.choice(["static", "minimalloc", "minimalloc", "auto"])
+            start = rng.choice([0, 64, 0x10000000, 4096])
+            yield {"kind": "static" if mode == "static" else "mini", "mode": mode, "front": "memref", "l1": True,
+                   "mems": [[start, rng.choice([512, 4096, 65536, 65536])]], "body": gen_front_body(rng, big=not quick)}
         for _ in range(n_mini):
             mems = gen_mems(rng)
             mode = rng.choice(["minimalloc"] * 10 + ["auto"] * 6 + ["dynamic"] * 3 + ["bogus"])
@@ -750,6 +889,8 @@ class C11(Prop):
             if mode in ("minimalloc", "auto") and rng.random() < 0.04:
                 case["blocks"] = 2
             case["body"] = gen_body(rng, mems, mode, big=not quick)
+            if rng.random() < 0.2 and case.get("blocks", 1) == 1:
+                case["twin"] = True  # observed as the second function of a two-function module
             if rng.random() < 0.15:
                 case["mems"] = tighten_mems(rng, mems, case["body"])  # the solver at the edge of the capacity
             yield case
@@ -791,7 +932,9 @@ class C11(Prop):
         ids = number_values(f)
         orig_ops = list(f.body.blocks[0].ops)
         orig_index = {op: i for i, op in enumerate(orig_ops)}
-        all_allocs = [op for op in f.walk() if isinstance(op, snax.Alloc)]
+        # static mode keeps one bump pointer per memory for the whole module: with a twin the module is observed
+        root = module if (case.get("twin") and case["mode"] == "static") else f
+        all_allocs = [op for op in root.walk() if isinstance(op, snax.Alloc)]
         alloc_sizes = [a.size for a in all_allocs]
         alloc_aligns = [None if a.alignment is None else a.alignment.value.data for a in all_allocs]
         top_allocs = [op for op in orig_ops if isinstance(op, snax.Alloc)]
@@ -816,11 +959,11 @@ class C11(Prop):
                     dyn.append([c.arguments[1].owner.value.value.data, c.arguments[0] is sz])
         addrs = []
         descr = []
-        for op in f.walk():
+        for op in root.walk():
             if isinstance(op, llvm.IntToPtrOp):
                 addrs.append(op.input.owner.value.value.data % 2 ** 32)  # i32 bit pattern read as an unsigned address
         # descriptors: follow the insertvalue chain of every struct that feeds a cast / use
-        for op in f.walk():
+        for op in root.walk():
             if isinstance(op, llvm.UndefOp):
                 fields = {}
                 cur = op.res
@@ -842,16 +985,19 @@ class C11(Prop):
                         # pointer k of the pair that the runtime allocator call number i returns
                         ld = o.container.owner
                         return ["ret", call_no[ld.ptr.owner], list(o.position.get_values())[0]]
+                    if not hasattr(o, "value"):
+                        return "dyn"  # a runtime extent
                     return o.value.value.data
                 descr.append([cst(fields[(0,)]), cst(fields[(1,)]), cst(fields[(2,)]),
                               [cst(fields[k]) for k in sorted(k for k in fields if k[0] == 3)]])
         placed = [[r[0], a, r[1], r[2]] for r, a in zip(walk_reqs, addrs)]
-        out = {"placed": placed, "descr": descr, "leftover_allocs": sum(1 for op in f.walk() if isinstance(op, snax.Alloc)),
+        out = {"placed": placed, "descr": descr, "leftover_allocs": sum(1 for op in root.walk() if isinstance(op, snax.Alloc)),
                "runtime_alloc_calls": n_calls, "dyn": dyn}
         if case["mode"] == "static":
             return out
         bufs = []
-        for rec in _Capture.items:
+        mine = [rec for rec in _Capture.items if all(b[0] in hash2idx for b in rec["bufs"])]  # problems of @f only
+        for rec in mine:
             for (bid, s, e, sz, al) in rec["bufs"]:
                 bufs.append([s, e, sz, al, idx2mem[hash2idx[bid]]])
         bufs.sort()
@@ -868,7 +1014,7 @@ class C11(Prop):
         out["bufs"] = bufs
         out["deallocs"] = sorted(deallocs)
         out["problems"] = [{"bufs": [list(b[1:]) for b in rec["bufs"]], "cap": rec["cap"], "sol": rec["sol"]}
-                           for rec in _Capture.items]
+                           for rec in mine]
         return out
 
     # -- model ----------------------------------------------------------------------------------
@@ -887,13 +1033,14 @@ class C11(Prop):
         ctx, module, f = build_ir(case)
         ids = number_values(f)
         key = canon_json(case)
-        all_allocs = [op for op in f.walk() if isinstance(op, snax.Alloc)]
+        root = module if (case.get("twin") and case["mode"] == "static") else f
+        all_allocs = [op for op in root.walk() if isinstance(op, snax.Alloc)]
         info = {"n_allocs": len(all_allocs)}
         self._cache[key] = info
         if case["kind"] == "static":
             reqs = [req_of(a) for a in all_allocs]
             return [{"fn": "c11.static", "args": {"mems": case["mems"], "reqs": reqs}},
-                    {"fn": "c11.descr", "args": {"addr": 0, "shape": SHAPE}}]
+                    {"fn": "c11.descr", "args": {"addr": 0, "shape": SHAPE}}] + front_size_reqs(case)
         n_blocks = len(f.body.blocks)
         prog = to_prog(f, ids) if n_blocks == 1 else []  # MiniMallocate is a no-op on a multi-block body
         base = {"mode": VIEWMODE, "mems": case["mems"], "prog": prog}
@@ -907,7 +1054,7 @@ class C11(Prop):
             # the solver is the first-fit stand-in of harness/compat.py: the model side is the closed Lean function
             # miniMallocateFF (lifetimes + proved first-fit solver + placement); equal addresses tie the stub to it
             return [{"fn": "c11.miniff", "args": dict(base, checked=FC11A)}, auto_req,
-                    {"fn": "c11.descr", "args": {"addr": 0, "shape": SHAPE}}, dyn_req]
+                    {"fn": "c11.descr", "args": {"addr": 0, "shape": SHAPE}}, dyn_req] + front_size_reqs(case)
         # a real `minimalloc` package: the solver stays a parameter (FC11a is not modelled on this path).
         # phase 1: everything before the solver is called; then the (external) solver; then placement
         (a1,) = leandrv.run_batch([{"fn": "c11.lifetimes", "args": base}])
@@ -927,7 +1074,7 @@ class C11(Prop):
                     info["solver_raised"] = type(e).__name__
                     break
         return [{"fn": "c11.mini", "args": dict(base, sol=sol)}, auto_req,
-                {"fn": "c11.descr", "args": {"addr": 0, "shape": SHAPE}}, dyn_req]
+                {"fn": "c11.descr", "args": {"addr": 0, "shape": SHAPE}}, dyn_req] + front_size_reqs(case)
 
     def model(self, case, answers):
         if case["kind"] == "size":
@@ -952,8 +1099,10 @@ class C11(Prop):
             if isinstance(r, dict) and "error" in r:
                 return {"raised": ERR2EXC.get(r["error"], "model:" + r["error"])}
             d = answers[1]["ok"]
-            return {"placed": r, "descr": [[p[1] + d[0], p[1] + d[1], d[2], d[3]] for p in r], "leftover_allocs": 0,
-                    "runtime_alloc_calls": 0, "dyn": []}
+            shp = expected_shapes(case, len(r))
+            out = {"placed": r, "descr": [[p[1] + d[0], p[1] + d[1], d[2], sh] for p, sh in zip(r, shp)], "leftover_allocs": 0,
+                   "runtime_alloc_calls": 0, "dyn": []}
+            return self.check_front_sizes(case, answers[2:], out, [p[2] for p in r])
         r, sel, d, dyn = answers[0]["ok"], answers[1]["ok"], answers[2]["ok"], answers[3]["ok"]
         if isinstance(sel, dict):  # unsupported allocation strategy
             return {"raised": ERR2EXC.get(sel["error"], "model:" + sel["error"])}
@@ -965,7 +1114,8 @@ class C11(Prop):
             if isinstance(dyn, dict):
                 return {"raised": ERR2EXC.get(dyn["error"], "model:" + dyn["error"])}
             ncall = sum(1 for x in dyn if x is not None)
-            return {"placed": [], "descr": [[["ret", i, 0], ["ret", i, 1], 0, SHAPE] for i in range(ncall)],
+            cshapes = [sh for x, sh in zip(dyn, expected_shapes(case, len(dyn))) if x is not None]
+            return {"placed": [], "descr": [[["ret", i, 0], ["ret", i, 1], 0, cshapes[i]] for i in range(ncall)],
                     "leftover_allocs": len(dyn) - ncall, "runtime_alloc_calls": ncall,
                     "dyn": ([None if x is None else [x, True] for x in dyn] if ncall else []), "bufs": [], "deallocs": []}
         if "solver_raised" in info:
@@ -979,6 +1129,22 @@ class C11(Prop):
             out["contract_violated_by_solver"] = r["contract"]
         if r.get("wellord") is False:
             out["program_not_in_ssa_order"] = True  # hypothesis WellOrd of lifetimes_closed (checked by wellOrdB)
+        shp = expected_shapes(case, len(r["placed"]))
+        out["descr"] = [[p[1] + d[0], p[1] + d[1], d[2], sh] for p, sh in zip(r["placed"], shp)]
+        return self.check_front_sizes(case, answers[4:], out, [p[2] for p in r["placed"]])
+
+    def check_front_sizes(self, case, size_answers, out, placed_sizes):
+        """front end "memref": the constant that memref-to-snax + canonicalize leave as the size operand of every
+        snax.alloc must be the size the Lean model computes for the layout (ties the neighbouring passes to allocSize)"""
+        if case.get("front") != "memref":
+            return out
+        want = []
+        for a in size_answers:
+            r = a.get("ok")
+            want.append(r["size"] if isinstance(r, dict) and "size" in r else r)
+        if want[:len(placed_sizes)] != placed_sizes:
+            out["sizes_after_memref_to_snax_and_canonicalize"] = placed_sizes
+            out["sizes_of_the_model"] = want
         return out
 
     def compare(self, case, impl_out, model_out):
@@ -1093,7 +1259,8 @@ class C11(Prop):
         ids = number_values(f)
         ops = list(f.body.block.ops)
         static = case["mode"] == "static"
-        allocs = [op for op in (f.walk() if static else ops) if isinstance(op, snax.Alloc)]
+        root = module if (static and case.get("twin")) else f
+        allocs = [op for op in (root.walk() if static else ops) if isinstance(op, snax.Alloc)]
         placed = out["placed"]
         if len(placed) != len(allocs):
             return [{"what": f"{len(allocs)} allocations but {len(placed)} address constants", "finding": None}]
@@ -1110,13 +1277,22 @@ class C11(Prop):
                 res.append({"what": f"address {addr} is not a multiple of the alignment {align} (memory start {start})",
                             "finding": "C11-N1" if n1 else None})
             tops_all, tops_orig, aliases = alias_uses(f, a, ids)
-            top = None
+            tops_nosel = alias_uses(f, a, ids, follow_select=False)[0]
+            top = -1  # (an alloc of the twin function @g in static mode: only its address range matters)
             o = a
-            while o.parent_op() is not f:
+            while o is not None and o.parent_op() is not f:
                 o = o.parent_op()
-            top = ops.index(o)
-            info.append({"mem": mem, "addr": addr, "size": size, "s": top, "all": tops_all, "orig": tops_orig, "aliases": aliases})
-        for d, (mem, a2, s2, al2, sh) in zip(out["descr"], [(p[0], p[1], p[2], p[3], SHAPE) for p in placed]):
+            if o is not None:
+                top = ops.index(o)
+            info.append({"mem": mem, "addr": addr, "size": size, "s": top, "all": tops_all, "orig": tops_orig, "aliases": aliases,
+                         "nosel": tops_nosel})
+        shapes = expected_shapes(case, len(placed))
+        if case.get("front") == "memref":
+            # the bytes that the layout of every memref.alloc really touches must fit the size it was placed with
+            for (_, n, lay, _), (mem, addr, size, align) in zip(walk_mallocs(case["body"]), placed):
+                for v in self.oracle_size(lay, {"rewritten": True, "size": size}):
+                    res.append({"what": f"buffer {n} placed at {addr}: " + v["what"], "finding": v["finding"]})
+        for d, (mem, a2, s2, al2), sh in zip(out["descr"], [(p[0], p[1], p[2], p[3]) for p in placed], shapes):
             if d != [a2, a2, 0, sh]:
                 res.append({"what": f"memref descriptor {d} for a buffer at {a2} with shape {sh}", "finding": None})
         for i in range(len(info)):
@@ -1135,10 +1311,12 @@ class C11(Prop):
                 live_b = [t for t in B["all"] if t >= B["s"]]
                 if live_a and live_b:
                     only_views = not [t for t in A["orig"] if t >= B["s"]]
+                    only_sel = not [t for t in A["nosel"] if t >= B["s"]]
                     res.append({"what": f"buffer {i} (alloc at op {A['s']}, [{A['addr']},+{A['size']})) is still used at op {max(live_a)} ({ops[max(live_a)].name}) "
                                         f"but buffer {j} (alloc at op {B['s']}) got [{B['addr']},+{B['size']})"
-                                        + (" — the late use is through a view / second-level cast" if only_views else ""),
-                                "finding": "D13" if only_views else None})
+                                        + (" — the late use is through an arith.select of the buffer" if only_sel else
+                                           " — the late use is through a view / second-level cast" if only_views else ""),
+                                "finding": "C11-N2" if only_sel else "D13" if only_views else None})
         for val, after in out.get("deallocs", []):
             owner = [x for x in info if val in x["aliases"]]
             if not owner:
@@ -1148,8 +1326,10 @@ class C11(Prop):
             late = [t for t in A["all"] if t > after]
             if late:
                 only_views = not [t for t in A["orig"] if t > after]
-                res.append({"what": f"memref.dealloc of the buffer allocated at op {A['s']} is inserted after op {after} but it is used at op {max(late)}",
-                            "finding": "D13" if only_views else None})
+                only_sel = not [t for t in A["nosel"] if t > after]
+                res.append({"what": f"memref.dealloc of the buffer allocated at op {A['s']} is inserted after op {after} but it is used at op {max(late)}"
+                                    + (" through an arith.select of the buffer" if only_sel else ""),
+                            "finding": "C11-N2" if only_sel else "D13" if only_views else None})
         for pr in out.get("problems", []):
             if not contract_ok(pr["bufs"], pr["cap"], pr["sol"]):
                 res.append({"what": f"the solver's answer {pr['sol']} violates the assumed contract on {pr['bufs']} (stub defect)", "finding": None})
@@ -1164,7 +1344,8 @@ class C11(Prop):
         return len(impl_out.get("placed", [])) >= 2
 
     def stats_key(self, case, impl_out):
-        k = case["kind"] + (":" + case["mode"] if "mode" in case else "")
+        k = case["kind"] + (":" + case["mode"] if "mode" in case else "") + (":pipeline" if case.get("front") else "") + (
+            ":twin" if case.get("twin") else "")
         if isinstance(impl_out, dict) and "raised" in impl_out:
             return f"{k}:raised:{impl_out['raised']}"
         if case["kind"] == "size":
@@ -1203,9 +1384,11 @@ class C11(Prop):
         body = case["body"]
 
         def defined(op):
+            if op[0] == "malloc":
+                return {f"m{op[1]}"}
             if op[0] == "alloc":
                 return {f"a{op[1]}"}
-            if op[0] in ("cast", "view"):
+            if op[0] in ("cast", "view", "sel"):
                 return {f"v{op[1]}"}
             return set()
 
@@ -1216,6 +1399,8 @@ class C11(Prop):
                     u.add(op[2])
                 elif op[0] == "view":
                     u.add(op[3])
+                elif op[0] == "sel":
+                    u.update(op[2:4])
                 elif op[0] == "use":
                     u.update(op[1])
                 elif op[0] == "for":
